@@ -9,6 +9,7 @@ pub mod c09;
 pub mod c10;
 pub mod c13;
 pub mod c14;
+pub mod c15;
 pub mod c17;
 pub mod c18;
 
@@ -23,6 +24,7 @@ pub fn dispatch(env: &Env) -> i32 {
         "C10" => c10::run(env),
         "C13" => c13::run(env),
         "C14" => c14::run(env),
+        "C15" => c15::run(env),
         "C17" => c17::run(env),
         "C18" => c18::run(env),
         other => {
